@@ -40,6 +40,14 @@ func privScalar(t *rapid.T) (*big.Int, string) {
 // "caller" overwrite everything it passed in or got back, which must not
 // influence later signatures.
 func signingKey(t *rapid.T, d *big.Int) *secec.PrivateKey {
+	k := signingKeyVia(t, d)
+	if msg := lib.FirstUsePriv(t, k, d, "first-use"); msg != "" {
+		t.Fatalf("%s (d=%x)", msg, d)
+	}
+	return k
+}
+
+func signingKeyVia(t *rapid.T, d *big.Int) *secec.PrivateKey {
 	switch gen.Sampled([]string{"bytes", "bytes", "scalar-then-mutate", "bytes-then-scrub"}).Draw(t, "key-route") {
 	case "scalar-then-mutate":
 		sc := lib.Sc(d)
